@@ -112,6 +112,7 @@ class Trace:
             s = parse_snap(snap) if snap else None
             self.steps.append(dict(line=ln, req=parse_req(ln), replies=[parse_reply(e) for e in evs if e.startswith("ev reply")],
                                    panic=[e for e in evs if e.startswith("ev panic")], aofs=[e.split() for e in evs if e.startswith("ev aof")],
+                                   notes=[e.split()[2:] for e in evs if e.startswith("ev note")],
                                    before=prev, after=s))
             if s is None:
                 break
@@ -582,6 +583,7 @@ def mon_c11(tr):
     granted_at = {}   # req -> value of the key around the grant of a pending ack-lock
     cfg = 1
     seen = collections.defaultdict(list)     # registration index -> [(kind, ok)]
+    regreq = {}       # registration index -> RequestId of the lock command the record was pushed for (harness note)
     for i, st in enumerate(tr.steps):
         kind = st["line"].split()[0]
         f = st["line"].split()
@@ -590,6 +592,20 @@ def mon_c11(tr):
         if kind == "ack":
             idx = int(f[1])
             seen[idx].append((f[3] if len(f) > 3 else "aofed", f[2] == "1"))
+            # "reported SUCCED only after ITS record has been acknowledged": an acknowledgement event addressed to
+            # registration idx may complete (or fail) only the request that registration was made for.  A hold that was
+            # acknowledgement-pending before the step and is answered by it must be the one registered under idx
+            # (requests served by the wake-up pass of a failed acknowledgement were not pending holds before).
+            pend_before = set(h["req"] for k in st["before"]["keys"].values() for h in live_holders(k) if h["ack"] != 255)
+            for rp in st["replies"]:
+                g = tr.reqs.get(rp["req"])
+                if g and g["islock"] and g["tflag"] & 0x1000 and rp["req"] in pend_before and regreq.get(idx) != rp["req"]:
+                    if rp["result"] == 0:
+                        out.append(("ack:succed-by-acknowledgement-of-another-registration",
+                                    "ack-lock %d was reported SUCCED by an acknowledgement event addressed to registration %d, which was made for request %s: no acknowledgement of its own record was needed" % (rp["req"], idx, regreq.get(idx, "none")), i))
+                    else:
+                        out.append(("ack:answered-by-acknowledgement-of-another-registration",
+                                    "pending ack-lock %d was answered %d by an acknowledgement event addressed to registration %d, which was made for request %s" % (rp["req"], rp["result"], idx, regreq.get(idx, "none")), i))
             for rp in st["replies"]:
                 g = tr.reqs.get(rp["req"])
                 if g and g["islock"] and g["tflag"] & 0x1000 and rp["result"] == 0:
@@ -602,6 +618,9 @@ def mon_c11(tr):
                         out.append(("ack:succed-before-own-log-flush", "ack-lock %d reported SUCCED after %d follower acknowledgement(s) but before the leader's own log flush (ackCount %d)" % (rp["req"], followers, cfg), i))
                     elif followers < cfg - 1:
                         out.append(("ack:succed-with-too-few-follower-acks", "ack-lock %d reported SUCCED with %d of %d follower acknowledgements" % (rp["req"], followers, cfg - 1), i))
+        for n in st.get("notes", []):
+            if n and n[0] == "reg":
+                regreq[int(n[1])] = int(n[2])
         rq = st["req"]
         if st["panic"] or not st["after"]:
             break
